@@ -25,19 +25,31 @@ class PyRaise(Exception):
         self.exc = exc
 
 
+_HQ_CACHE = {}
+
+
 def has_quant(t):
-    seen = set()
+    """does the formula contain a quantifier?  (memoised; the cache keeps the terms alive so ids cannot be reused)"""
+    if len(_HQ_CACHE) > 400000:
+        _HQ_CACHE.clear()
     stack = [t]
+    order = []
     while stack:
         x = stack.pop()
         k = x.get_id()
-        if k in seen:
+        if k in _HQ_CACHE:
             continue
-        seen.add(k)
         if z3.is_quantifier(x):
-            return True
-        stack.extend(x.children())
-    return False
+            _HQ_CACHE[k] = (x, True)
+            continue
+        ch = x.children()
+        pending = [c for c in ch if c.get_id() not in _HQ_CACHE]
+        if pending:
+            stack.append(x)
+            stack.extend(pending)
+            continue
+        _HQ_CACHE[k] = (x, any(_HQ_CACHE[c.get_id()][1] for c in ch))
+    return _HQ_CACHE[t.get_id()][1]
 
 
 class ObRec:
@@ -172,6 +184,7 @@ class Ctx:
     def __init__(self, task, log):
         self.task = task
         self.log = list(log)
+        self.given = len(self.log)       # decisions inherited from the parent path: obligations met while replaying them are the parent's
         self.pos = 0
         self.solver = z3.Solver()
         self.solver.set("auto_config", False)
@@ -283,10 +296,32 @@ class Ctx:
         self.assume(cond if d else z3.Not(cond))
         return d
 
+    def reset_to_base(self):
+        """fresh context at a merge point: only the function-entry facts survive"""
+        self.solver = z3.Solver()
+        self.solver.set("auto_config", False)
+        self.solver.set("smt.mbqi", False)
+        self.solver.set("timeout", self.task.branch_timeout_ms)
+        self.qf = z3.Solver()
+        self.qf.set("timeout", 2000)
+        self.nquant = 0
+        base = list(getattr(self, "base_pc", []))
+        self.pc = []
+        self.facts = {}
+        for f in base:
+            self.assume(f)
+
     # ---- obligations -------------------------------------------------------------------------
     def prove(self, name, goal, kind="goal", detail=""):
         if isinstance(goal, bool):
             goal = z3.BoolVal(goal)
+        if self.pos < self.given:
+            # replaying the prefix shared with the parent path: the parent already decided this very obligation
+            try:
+                self.assume(goal)
+            except Infeasible:
+                pass
+            return True
         t0 = time.time()
         goal_s = z3.simplify(goal)
         if z3.is_true(goal_s):
@@ -308,6 +343,8 @@ class Ctx:
 
     def fail(self, name, detail, kind="goal"):
         """An obligation that fails by construction on this (feasible) path, e.g. an unexpected exception."""
+        if self.pos < self.given:
+            return
         model = None
         r = self.solver.check()
         if r == z3.sat:
